@@ -260,15 +260,28 @@ def _option_mapping_by_interpretation(ctx, rule, fn):
     helpers = {h.name: h for h in unit_functions(ctx.prog, fn)[1:]}
     paths = absint.Interp(fn, helpers).run()
     M = ('attr', ('name', 'self'), '_mapping')
-    ORIG = ('attr', ('name', 'self'), '_src_choice_originating_node')
+    def is_orig(x):
+        # the attribute of the mapping that holds the originating node(s) of the source choice
+        return isinstance(x, tuple) and len(x) == 3 and x[0] == 'attr' and x[1] == ('name', 'self') and \
+            isinstance(x[2], str) and 'originating' in x[2]
 
     def is_exists(t):
-        return isinstance(t, tuple) and t[0] == 'in' and isinstance(t[1], tuple) and t[1][0] == 'call' and \
-            t[1][1] == ('attr', ORIG, 'str_context')
+        # `<originating node>.str_context() in <context strings of the source architecture>`
+        return isinstance(t, tuple) and len(t) == 3 and t[0] == 'in' and isinstance(t[1], tuple) and \
+            len(t[1]) == 3 and t[1][0] == 'call' and isinstance(t[1][1], tuple) and len(t[1][1]) == 3 and \
+            t[1][1][0] == 'attr' and t[1][1][2] == 'str_context' and bool(absint.find(t[1][1][1], is_orig))
 
     def assumed_exists(q):
-        vals = [v for t, v in q.conds if is_exists(t)]
-        return vals[0] if vals else None
+        for t, v in q.conds:
+            if is_exists(t):
+                return v
+            # `next(<originating nodes that exist in the source architecture>, None) is None`: no originating node
+            # exists (the choice was inactive); its negation: some originating node exists
+            if isinstance(t, tuple) and t[0] == 'is' and t[2] is None and isinstance(t[1], tuple) and \
+                    t[1][:2] == ('call', ('name', 'next')) and len(t[1][2]) == 2 and t[1][2][1] is None and \
+                    absint.find(t[1][2][0], is_exists):
+                return not v
+        return None
     rets = [q for q in paths if q.outcome[0] == 'return']
     if not rets:
         raise AnalysisError('SupSelChoiceOptionMapping.resolve: no returning path')
@@ -310,7 +323,7 @@ def _option_mapping_by_interpretation(ctx, rule, fn):
         for b_ in inter:
             ops = [b_[2], b_[3]]
             ks = [o for o in ops if o in keys_forms]
-            outs = [o for o in ops if isinstance(o, tuple) and o[0] == 'setcomp' and absint.contains(o, ORIG) and
+            outs = [o for o in ops if isinstance(o, tuple) and o[0] == 'setcomp' and absint.find(o, is_orig) and
                     absint.find(o, lambda x: x[:1] == ('call',) and x[1] == ('name', 'iter_out_edges'))]
             if ks and outs:
                 good_sel = True
@@ -329,6 +342,32 @@ def _option_mapping_by_interpretation(ctx, rule, fn):
            'node (otherwise an error is raised)', '')
     ctx.ob(rule, fkey(fn, rule, 'selected-is-mapped-out-neighbour'), ok_sel and n_sel >= 1, fn.where,
            'the selected source option is an out-neighbour of the originating node that is a key of the mapping', '')
+    # a source choice may be derived by several nodes (the selected option is wired to each of them): what the mapping
+    # remembers of them at initialisation is all of them, not one picked by position - otherwise a choice that is
+    # active through another originating node is taken for inactive (F26)
+    init = ctx.prog.find_method(fn.owner_class, 'initialize')
+    kept = []
+    if init is not None:
+        for u_ in unit_functions(ctx.prog, init):
+            for a_ in walk_fn(u_):
+                if isinstance(a_, ast.Assign) and is_self_attr(a_.targets[0]) and 'originating' in a_.targets[0].attr:
+                    v_ = expand_locals(u_, a_.value, 2)
+                    if any(isinstance(c_, ast.Call) and call_name(c_) == 'iter_in_edges' for c_ in ast.walk(v_)):
+                        kept.append((u_, a_, v_))
+    if not kept:
+        raise AnalysisError('SupSelChoiceOptionMapping.initialize: the originating node(s) of the source choice are '
+                            'not taken from its in-edges')
+    for u_, a_, v_ in kept:
+        def has_in_edges(e_):
+            return any(isinstance(c_, ast.Call) and call_name(c_) == 'iter_in_edges' for c_ in ast.walk(e_))
+        # a selection by position from the collection of in-edge sources (`[...][0]`, `[...][:1]`, `next(...)`)
+        one = any((isinstance(x_, ast.Subscript) and has_in_edges(x_.value) and
+                   not (isinstance(x_.value, ast.Name))) or
+                  (isinstance(x_, ast.Call) and call_name(x_) == 'next' and x_.args and has_in_edges(x_.args[0]))
+                  for x_ in ast.walk(v_))
+        ctx.ob(rule, fkey(fn, rule, 'every-originating-node-kept'), not one, f'{u_.module.relpath}:{a_.lineno}',
+               'the mapping keeps every node that derives the source choice (a choice with several originating nodes '
+               'is active when any of them exists)', short(a_, 100))
     # every path that does not return raises the resolve error
     others = [q for q in paths if q.outcome[0] != 'return']
     ok = all(q.outcome[0] == 'raise' for q in others)
@@ -611,6 +650,18 @@ def check(ctx):
 from ..selftest import V  # noqa: E402
 
 VARIANTS = [
+    V('only-first-originating-node-kept', 'graph/sup/dsg.py',
+      [("        self._src_choice_originating_nodes = [edge[0] for edge in iter_in_edges(src_dsg.graph, src_choice_node)]\n",
+        "        self._src_choice_originating_nodes = [edge[0] for edge in iter_in_edges(src_dsg.graph, src_choice_node)][:1]\n")],
+      key='every-originating-node-kept'),
+    V('originating-nodes-as-tuple', 'graph/sup/dsg.py',
+      [("        self._src_choice_originating_nodes = [edge[0] for edge in iter_in_edges(src_dsg.graph, src_choice_node)]\n",
+        "        in_edges = list(iter_in_edges(src_dsg.graph, src_choice_node))\n        self._src_choice_originating_nodes = tuple(in_edge[0] for in_edge in in_edges)\n")],
+      expect='silent', why='all originating nodes kept, other container / hoisted edge list'),
+    V('only-first-originating-node-kept-by-index', 'graph/sup/dsg.py',
+      [("        self._src_choice_originating_nodes = [edge[0] for edge in iter_in_edges(src_dsg.graph, src_choice_node)]\n",
+        "        self._src_choice_originating_nodes = [[edge[0] for edge in iter_in_edges(src_dsg.graph, src_choice_node)][0]]\n")],
+      key='every-originating-node-kept'),
     V('none-key-dereferenced', 'graph/sup/dsg.py',
       [("for node, sup_node in mapping.items() if node is not None}", "for node, sup_node in mapping.items()}")], key='A10d'),
     V('non-final-source-accepted', 'graph/sup/dsg.py',
